@@ -18,7 +18,7 @@ def run(rep: Report, repo: Repo):
         'keyword agreement. A may-be-None / may-be-missing attribute flow rule covers the public properties (DefNet.wires/vias, '
         'DefWire.wire_points/vias); x/y symmetry of the via expansion and the special/regular twin handlers are compared by renaming.')
     rep.trusted = ['lark LALR compilation of the grammar constant']
-    rep.assumptions = ['NOT DECIDED: value fidelity for arbitrary files; lexer ambiguities (ID vs NUMBER priority)']
+    rep.assumptions = ['BOUNDED: value fidelity is decided for one fixture text covering every section (C20.extract) and all short routing lists (C20.geometry); arbitrary files and lexer ambiguities (ID vs NUMBER priority) are not']
     mod = repo.mod('def_file')
     text, gnode = grammar.extract_grammar(mod)
     G = grammar.Grammar(text, 'def_file')
